@@ -175,13 +175,13 @@ func traceState(c string) trace.TraceState {
 	return ts
 }
 
-func parentOf(c string, n int) trace.SpanContext {
+func parentOf(c string, n int, idc string, ts trace.TraceState) trace.SpanContext {
 	switch c {
 	case "none":
 		return trace.SpanContext{}
 	case "local", "remote":
-		return trace.NewSpanContext(trace.SpanContextConfig{TraceID: mkTID("plain", n), SpanID: mkParent(n),
-			TraceFlags: trace.FlagsSampled, Remote: c == "remote"})
+		return trace.NewSpanContext(trace.SpanContextConfig{TraceID: mkTID(idc, n), SpanID: mkParent(n),
+			TraceFlags: trace.FlagsSampled, Remote: c == "remote", TraceState: ts})
 	}
 	harnessBug("parent class %q", c)
 	return trace.SpanContext{}
@@ -193,7 +193,7 @@ func buildSpan(w *World, it Item, fv SpanFV) sdktrace.ReadOnlySpan {
 		Name: concStr("name", fv.Name),
 		SpanContext: trace.NewSpanContext(trace.SpanContextConfig{TraceID: mkTID(fv.Idc, it.ID), SpanID: mkSID(fv.Idc, it.ID),
 			TraceFlags: trace.FlagsSampled, TraceState: traceState(fv.Ts)}),
-		Parent:               parentOf(fv.Parent, it.ID),
+		Parent:               parentOf(fv.Parent, it.ID, fv.Idc, trace.TraceState{}),
 		SpanKind:             kindOf(fv.Kind),
 		StartTime:            concTime(r, fv.Start),
 		EndTime:              concTime(r, fv.End),
@@ -242,7 +242,7 @@ func buildZipkinSpans(w *World, batch []Item) []sdktrace.ReadOnlySpan {
 			Name: concStr("name", fv.Name),
 			SpanContext: trace.NewSpanContext(trace.SpanContextConfig{TraceID: mkTID(fv.Idc, it.ID), SpanID: mkSID(fv.Idc, it.ID),
 				TraceFlags: trace.FlagsSampled}),
-			Parent:               parentOf(fv.Parent, it.ID),
+			Parent:               parentOf(fv.Parent, it.ID, fv.Idc, trace.TraceState{}),
 			SpanKind:             kindOf(fv.Kind),
 			StartTime:            start,
 			EndTime:              start.Add(pick(r, zDurReps[fv.Dur], "zdur", fv.Dur)),
